@@ -149,6 +149,12 @@ Section Script.
               ++ obs_ops 6 tw in
     (* ... and at the very end the old id is opened once more on that Project object *)
     let o14 := match tw with Some _ => [(42, OOpenId sid oid)] | None => [] end in
+    (* ... and, after a clone, bytes are appended through the CLONE's entry of the last payload file (which may be a
+       symbolic link in the source; links are outside the FS model: the model sees the file read through the link) *)
+    let o15 := match cl, rev (p_files (i_pay i)) with
+               | Some c, (rel, b) :: _ => [(72, OWriteFile c rel (b ++ [33%N])); (73, OTree)]
+               | _, _ => []
+               end in
     let o10 := [(0, ONewSession PA); (40, OIds ns); (0, ONewSession PB); (41, OIds (S ns))] in
     (* documents: of the handle, of the clone, and (for re-key routes, where they must follow) of the shallow copies *)
     let o11 := doc_ops 0 (Some hm)
@@ -156,7 +162,7 @@ Section Script.
                ++ doc_ops 5 cl in
     let o13 := init_ops dp ++ init_ops pk in
     (o1 ++ o2 ++ o3 ++ o4 ++ o5a ++ o5b ++ o5c ++ o6 ++ [(1, OTree); (2, main)] ++ follow ++ [(3, OTree)] ++ o9 ++ o10 ++ o11
-        ++ [(60, OTree)] ++ o13 ++ [(70, OTree)] ++ o14,
+        ++ [(60, OTree)] ++ o13 ++ [(70, OTree)] ++ o15 ++ o14,
      mkRoles hm c1 c2 dp pk cl ns (S ns) tw).
 
   (* ------------------------------------------------------------------ reading the observations *)
@@ -260,7 +266,13 @@ Section Script.
           | Some (VExn EKeyError) => negb (isdir_t final src)
           | _ => false
           end) in
-    let common := pre_ok && twin_ok && ids_ok && independent 3 && independent 4 && indep_usable
+    (* the clone is INDEPENDENT of the source: writing through an entry of the clone changes nothing outside the clone *)
+    let clone_indep :=
+      match r_cl ro, rev (p_files (i_pay i)) with
+      | Some _, _ :: _ => tree_same_except [bws ++ [oid]] final (tree_at 73 [] sc outs)
+      | _, _ => true
+      end in
+    let common := pre_ok && twin_ok && clone_indep && ids_ok && independent 3 && independent 4 && indep_usable
                   && (uninit || tree_same_except (if m_shallow m then [src] else []) post post2) in
     match i_route i with
     | RMove =>
